@@ -108,6 +108,21 @@ def open_record_writer(c):
     c.mutant("qualities=self._qualities", "qualities=True")
 
 
+@contract("files.py", "OutputFiles.open_record_writer", props=["C19"], name="OutputFiles.open_record_writer@stdout")
+def open_record_writer_stdout(c):
+    """The paired-end sink for standard output is opened as open_record_writer(None, interleaved=True, force_fasta=--fasta):
+    no name, so FASTA exactly when --fasta was given."""
+    c.types(self=OutFilesT, paths=api.ConstT(TupV((None,))), interleaved=Bool, force_fasta=Bool)
+    c.modifies = ["self"]
+    c.spec(fmt_spec)
+    c.raises("ValueError", when=None)
+    c.ensures(
+        fasta_exactly_when_forced="fmt_passed_is('fasta') == force_fasta and fmt_passed_is_unset() == (not force_fasta)",
+        falls_back_to_the_input_format="qualities_passed() == self._qualities",
+        same_arguments_with_one_core_and_with_several="writer_kind_is_proxy() == self._proxied",
+    )
+
+
 def kw_spec(cx):
     def kw(st_env_getter):
         pass
@@ -140,6 +155,26 @@ def kw_spec(cx):
 
 
 open_record_writer.specs.append(kw_spec)
+open_record_writer_stdout.specs.append(kw_spec)
+
+
+@contract("files.py", "OutputFiles.open_stdout_record_writer", props=["C19", "C06"])
+def open_stdout_record_writer(c):
+    """Standard output has no name: FASTA exactly when --fasta was given, otherwise the input format decides (through
+    `qualities`); the same arguments reach the direct and the proxied writer."""
+    c.types(self=OutFilesT, interleaved=Bool, force_fasta=Bool)
+    c.modifies = ["self"]
+    c.env["sys.stdout"] = ObjV("Stdout", {"buffer": ObjV("BinFile2", {"__id__": z3.IntVal(-7)})})
+    c.spec(fmt_spec)
+    c.spec(kw_spec)
+    c.ensures(
+        fasta_exactly_when_forced="fmt_passed_is('fasta') == force_fasta and fmt_passed_is_unset() == (not force_fasta)",
+        falls_back_to_the_input_format="qualities_passed() == self._qualities",
+        same_arguments_with_one_core_and_with_several="writer_kind_is_proxy() == self._proxied",
+        interleaved_passed_through="interleaved_passed() == interleaved",
+    )
+    c.mutant("if force_fasta:", "if not force_fasta:")
+    c.mutant("qualities=self._qualities", "qualities=False")
 
 
 def extra_checks(res, tier, seed, known, log):
